@@ -173,6 +173,51 @@ def dspseq_case(case):
     return probs
 
 
+def planvalidate_case(case):
+    """PlanValidate.tla: a custom scheduler returning a plan with one defect; plan() must reject it (ValueError) or the plan must be runnable."""
+    import speckit
+    cfg, bins, outcome = case["cfg"], case["bins"], case["outcome"]
+    n, fs = 8, 1.0
+    L = [b["L"] for b in bins]
+    plan = {"f": np.array([0.1, 0.2]), "r": np.array([fs / max(l, 1) for l in L]), "b": np.array([0.1 * L[0] / fs, 0.2 * L[1] / fs]),
+            "L": np.array(L, dtype=np.int64), "K": np.array([b["K"] for b in bins], dtype=np.int64), "navg": np.array([b["K"] for b in bins], dtype=np.int64),
+            "D": [np.array(b["D"], dtype=np.int64) for b in bins], "O": np.zeros(2)}
+    d = cfg["defect"]
+    if d.startswith("missing_"):
+        del plan[d[len("missing_"):]]
+    elif d.startswith("short_"):
+        k = d[len("short_"):]
+        plan[k] = plan[k][:-1]
+    elif d == "D_not_a_list":
+        plan["D"] = np.zeros((2, 2), dtype=np.int64)
+    elif d == "D_short":
+        plan["D"] = plan["D"][:1]
+    elif d == "D_elem_2d":
+        plan["D"][cfg["bin"] - 1] = np.zeros((2, 2), dtype=np.int64)
+    x = np.arange(float(n)) % 3.0
+    try:
+        a = speckit.SpectrumAnalyzer(x, fs, scheduler=lambda **kw: dict(plan), Lmin=cfg["Lmin"], order=0, backend="numpy", win="hann")
+        pl = a.plan()
+    except (ValueError, TypeError) as exc:
+        return [] if outcome == "error" else [("valid_plan_rejected", f"{type(exc).__name__}: {exc}"[:80], outcome)]
+    except Exception as exc:
+        return [("unexpected_exception", f"{type(exc).__name__}: {exc}"[:80], outcome)]
+    if outcome == "error":
+        return [("defective_plan_accepted", {k: (v.tolist() if hasattr(v, "tolist") else str(v)) for k, v in pl.items() if k in ("L", "K")}, d)]
+    probs = []
+    for j in range(int(pl["nf"])):
+        st = np.asarray(pl["D"][j])
+        if st.size == 0 or st.min() < 0 or st.max() + int(pl["L"][j]) > n or int(pl["K"][j]) != st.size:
+            probs.append(("accepted_plan_not_safe_to_run", j, st.tolist()))
+    try:
+        r = a.compute()
+        if r.nf != 2:
+            probs.append(("accepted_plan_bins", r.nf, 2))
+    except Exception as exc:
+        probs.append(("accepted_plan_does_not_run", f"{type(exc).__name__}: {exc}"[:80], ""))
+    return probs
+
+
 def run(tier):
     V = common.Verdict(PID, tier, "model_checking")
     res = tlc.run_model("Config", f"{PID}_config", constants=dict(EmitCases=True), invariants=["AlphaOnlyForKaiser", "Emit"])
@@ -210,6 +255,16 @@ def run(tier):
         V.case(c, not c["empty"])
         for (what, got, exp) in probs:
             V.violation(f"{PID}|resample|{what}|frames={len(c['frames'])}", {"kind": "resample", "case": c, "message": f"resample_to_common_grid: {what}: {got} vs {exp} for {c['frames']} fs={c['fs']}"})
+    rv = tlc.run_model("PlanValidate", f"{PID}_planvalidate", constants=dict(N=8, EmitCases=True),
+                       invariants=["SafeToRun", "EveryDefectRejected", "CleanPlanAccepted", "Emit"])
+    if rv.violated:
+        raise tlc.TLCError(f"PlanValidate.tla violates {rv.violated}")
+    V.model(rv, "PlanValidate.tla: plan() validation of scheduler output (the gate in front of the unchecked Numba kernels)")
+    vcs = rv.json_prints()
+    for c, probs in zip(vcs, common.pmap(planvalidate_case, vcs, chunksize=16)):
+        V.case(c["cfg"], c["outcome"] == "error")
+        for (what, got, exp) in probs:
+            V.violation(f"{PID}|planvalidate|{what}|{c['cfg']['defect']}", {"kind": "planvalidate", "case": c, "message": f"{c['cfg']}: {what}: {got} ({exp})"})
     rd = tlc.run_model("DspSeq", f"{PID}_dspseq", constants=dict(MaxLen=3 if tier == "quick" else 4, Vals=tlc.Raw("{-1, 0, 2}"), EmitCases=True),
                        invariants=["CropKeepsOrderAndOnlyInRange", "TruncIsSymmetric", "MeanFreePhaseReturnsToZero", "Emit"])
     if rd.violated:
